@@ -1,1 +1,1537 @@
-//! shared helpers for the checks in this crate
+//! Shared helpers for C14 / C15: the Matrix HTML allow-list tables (typed in from the spec,
+//! DESIGN.md Appendix A.5 — never imported from ruma-html), a description of sanitizer
+//! configurations with the documented builder semantics, the reference oracles that walk
+//! ruma-html's public tree API, and the bounded-exhaustive input generators.
+
+use std::fmt::Write as _;
+
+use ruma_html::{
+    ElementAttributesReplacement, ElementAttributesSchemes, Html, HtmlSanitizerMode, ListBehavior,
+    NameReplacement, NodeData, NodeRef, PropertiesNames, SanitizerConfig,
+};
+
+// ---------------------------------------------------------------------------------------
+// spec tables (Matrix client-server spec, m.room.message msgtypes; DESIGN Appendix A.5)
+
+pub mod spec {
+    /// Elements of the allow-list (without `mx-reply`, which is allowed unless fallbacks are removed).
+    pub const ELEMENTS: [&str; 37] = [
+        "del", "h1", "h2", "h3", "h4", "h5", "h6", "blockquote", "p", "a", "ul", "ol", "sup", "sub",
+        "li", "b", "i", "u", "strong", "em", "s", "code", "hr", "br", "div", "table", "thead",
+        "tbody", "tr", "th", "td", "caption", "pre", "span", "img", "details", "summary",
+    ];
+    pub const REPLY: &str = "mx-reply";
+    /// deprecated element -> replacement
+    pub const DEPRECATED_ELEMENTS: [(&str, &str); 2] = [("font", "span"), ("strike", "s")];
+    /// (deprecated element, deprecated attribute, replacement attribute)
+    pub const DEPRECATED_ATTRS: [(&str, &str, &str); 1] = [("font", "color", "data-mx-color")];
+    pub const MAX_DEPTH: u32 = 100;
+    pub const CODE_CLASS_PATTERN: &str = "language-*";
+
+    pub fn attrs(el: &str) -> &'static [&'static str] {
+        match el {
+            "span" => &["data-mx-bg-color", "data-mx-color", "data-mx-spoiler", "data-mx-maths"],
+            "a" => &["target", "href"],
+            "img" => &["width", "height", "alt", "title", "src"],
+            "ol" => &["start"],
+            "code" => &["class"],
+            "div" => &["data-mx-maths"],
+            _ => &[],
+        }
+    }
+
+    /// allowed URI schemes of (element, attribute) in strict mode
+    pub fn schemes(el: &str, attr: &str) -> Option<&'static [&'static str]> {
+        match (el, attr) {
+            ("a", "href") => Some(&["https", "http", "ftp", "mailto", "magnet"]),
+            ("img", "src") => Some(&["mxc"]),
+            _ => None,
+        }
+    }
+
+    /// additional schemes of compat mode
+    pub fn compat_schemes(el: &str, attr: &str) -> Option<&'static [&'static str]> {
+        match (el, attr) {
+            ("a", "href") => Some(&["matrix"]),
+            _ => None,
+        }
+    }
+
+    pub fn classes(el: &str) -> &'static [&'static str] {
+        match el {
+            "code" => &[CODE_CLASS_PATTERN],
+            _ => &[],
+        }
+    }
+}
+
+// ---------------------------------------------------------------------------------------
+// configuration description + documented semantics (sanitizer_config.rs doc comments)
+
+pub type Names = &'static [&'static str];
+pub type PerEl = &'static [(&'static str, Names)];
+pub type Repl = &'static [(&'static str, &'static str)];
+pub type PerElRepl = &'static [(&'static str, Repl)];
+pub type Schemes = &'static [(&'static str, PerEl)];
+
+#[derive(Clone, Copy, Debug, PartialEq, Eq)]
+pub enum Mode {
+    Strict,
+    Compat,
+}
+
+#[derive(Clone, Copy, Debug, PartialEq, Eq)]
+pub enum Beh {
+    Override,
+    Add,
+}
+
+impl Beh {
+    fn to_ruma(self) -> ListBehavior {
+        match self {
+            Beh::Override => ListBehavior::Override,
+            Beh::Add => ListBehavior::Add,
+        }
+    }
+}
+
+#[derive(Clone, Debug, Default)]
+pub struct Cfg {
+    pub name: &'static str,
+    /// one of the four plain mode configurations (no builder list)
+    pub main: bool,
+    pub mode: Option<Mode>,
+    pub rrf: bool,
+    pub allow_elements: Option<(Names, Beh)>,
+    pub ignore_elements: Option<Names>,
+    pub remove_elements: Option<Names>,
+    pub replace_elements: Option<(Repl, Beh)>,
+    pub allow_attrs: Option<(PerEl, Beh)>,
+    pub remove_attrs: Option<PerEl>,
+    pub replace_attrs: Option<(PerElRepl, Beh)>,
+    pub allow_schemes: Option<(Schemes, Beh)>,
+    pub deny_schemes: Option<Schemes>,
+    pub allow_classes: Option<(PerEl, Beh)>,
+    pub remove_classes: Option<PerEl>,
+    pub max_depth: Option<u32>,
+}
+
+fn per_el<'a>(list: &'a [(&'static str, Names)], el: &str) -> Option<Names> {
+    // HashMap semantics of `collect()`: the last entry of a key wins
+    list.iter().rev().find(|(e, _)| *e == el).map(|(_, v)| *v)
+}
+
+/// `*` = any number of characters (documented class pattern syntax)
+pub fn glob_star(pattern: &str, s: &str) -> bool {
+    fn rec(p: &[u8], s: &[u8]) -> bool {
+        match p.first() {
+            None => s.is_empty(),
+            Some(b'*') => (0..=s.len()).any(|i| rec(&p[1..], &s[i..])),
+            Some(c) => s.first() == Some(c) && rec(&p[1..], &s[1..]),
+        }
+    }
+    rec(pattern.as_bytes(), s.as_bytes())
+}
+
+/// The scheme of a URI reference as a browser would extract it: ASCII tab / newline are
+/// dropped anywhere, leading C0 control / space is trimmed, then `ALPHA *( ALPHA / DIGIT / + - . ) ":"`,
+/// compared case-insensitively. `None` = no scheme (relative reference).
+pub fn ref_scheme(value: &str) -> Option<String> {
+    let cleaned: String = value.chars().filter(|c| !matches!(c, '\t' | '\n' | '\r')).collect();
+    let s = cleaned.trim_start_matches(|c: char| c <= ' ');
+    let idx = s.find(':')?;
+    let sch = &s[..idx];
+    let mut chars = sch.chars();
+    let first = chars.next()?;
+    if !first.is_ascii_alphabetic() {
+        return None;
+    }
+    if !chars.all(|c| c.is_ascii_alphanumeric() || matches!(c, '+' | '-' | '.')) {
+        return None;
+    }
+    Some(sch.to_ascii_lowercase())
+}
+
+#[derive(Clone, Copy, Debug, PartialEq, Eq)]
+pub enum Decision {
+    Keep,
+    Ignore,
+    /// the reference does not define the answer (e.g. `HTTPS:` — an allowed scheme in a spelling
+    /// the implementation may or may not recognise)
+    Unspecified,
+}
+
+impl Cfg {
+    pub fn strict(&self) -> bool {
+        self.mode.is_some()
+    }
+    pub fn compat(&self) -> bool {
+        self.mode == Some(Mode::Compat)
+    }
+    pub fn max_depth_value(&self) -> Option<u32> {
+        self.max_depth.or(self.strict().then_some(spec::MAX_DEPTH))
+    }
+
+    /// label used in violation signatures: empty for the four plain mode configs
+    pub fn sig_prefix(&self) -> String {
+        if self.main {
+            String::new()
+        } else {
+            format!("{}:", self.name)
+        }
+    }
+
+    pub fn build(&self) -> SanitizerConfig {
+        let mut c = match self.mode {
+            None => SanitizerConfig::new(),
+            Some(Mode::Strict) => SanitizerConfig::strict(),
+            Some(Mode::Compat) => SanitizerConfig::compat(),
+        };
+        if self.rrf {
+            c = c.remove_reply_fallback();
+        }
+        if let Some((l, b)) = self.allow_elements {
+            c = c.allow_elements(l.iter().copied(), b.to_ruma());
+        }
+        if let Some(l) = self.ignore_elements {
+            c = c.ignore_elements(l.iter().copied());
+        }
+        if let Some(l) = self.remove_elements {
+            c = c.remove_elements(l.iter().copied());
+        }
+        if let Some((l, b)) = self.replace_elements {
+            c = c.replace_elements(l.iter().map(|(o, n)| NameReplacement { old: o, new: n }), b.to_ruma());
+        }
+        let props = |l: PerEl| -> Vec<PropertiesNames<'static>> {
+            l.iter().map(|(p, v)| PropertiesNames { parent: p, properties: v }).collect()
+        };
+        if let Some((l, b)) = self.allow_attrs {
+            c = c.allow_attributes(props(l), b.to_ruma());
+        }
+        if let Some(l) = self.remove_attrs {
+            c = c.remove_attributes(props(l));
+        }
+        if let Some((l, b)) = self.replace_attrs {
+            let inner: Vec<Vec<NameReplacement>> = l
+                .iter()
+                .map(|(_, r)| r.iter().map(|(o, n)| NameReplacement { old: o, new: n }).collect())
+                .collect();
+            c = c.replace_attributes(
+                l.iter().zip(&inner).map(|((el, _), r)| ElementAttributesReplacement { element: el, replacements: r }),
+                b.to_ruma(),
+            );
+        }
+        if let Some((l, b)) = self.allow_schemes {
+            let inner: Vec<Vec<PropertiesNames>> = l.iter().map(|(_, a)| props(a)).collect();
+            c = c.allow_schemes(
+                l.iter().zip(&inner).map(|((el, _), a)| ElementAttributesSchemes { element: el, attr_schemes: a }),
+                b.to_ruma(),
+            );
+        }
+        if let Some(l) = self.deny_schemes {
+            let inner: Vec<Vec<PropertiesNames>> = l.iter().map(|(_, a)| props(a)).collect();
+            c = c.deny_schemes(
+                l.iter().zip(&inner).map(|((el, _), a)| ElementAttributesSchemes { element: el, attr_schemes: a }),
+            );
+        }
+        if let Some((l, b)) = self.allow_classes {
+            c = c.allow_classes(props(l), b.to_ruma());
+        }
+        if let Some(l) = self.remove_classes {
+            c = c.remove_classes(props(l));
+        }
+        if let Some(d) = self.max_depth {
+            c = c.max_depth(d);
+        }
+        c
+    }
+
+    // ----- documented semantics -----
+
+    /// element replacement (list first, then the mode's deprecated elements unless Override)
+    pub fn elem_replacement(&self, name: &str) -> Option<&'static str> {
+        if let Some((l, _)) = self.replace_elements {
+            if let Some((_, n)) = l.iter().rev().find(|(o, _)| *o == name) {
+                return Some(n);
+            }
+        }
+        let overridden = matches!(self.replace_elements, Some((_, Beh::Override)));
+        if self.strict() && !overridden {
+            return spec::DEPRECATED_ELEMENTS.iter().find(|(o, _)| *o == name).map(|(_, n)| *n);
+        }
+        None
+    }
+
+    /// attribute replacement, looked up with the element's name *before* its own replacement
+    pub fn attr_replacement(&self, el: &str, attr: &str) -> Option<&'static str> {
+        if let Some((l, _)) = self.replace_attrs {
+            if let Some((_, r)) = l.iter().rev().find(|(e, _)| *e == el) {
+                if let Some((_, n)) = r.iter().rev().find(|(o, _)| *o == attr) {
+                    return Some(n);
+                }
+            }
+        }
+        let overridden = matches!(self.replace_attrs, Some((_, Beh::Override)));
+        if self.strict() && !overridden {
+            return spec::DEPRECATED_ATTRS.iter().find(|(e, a, _)| *e == el && *a == attr).map(|x| x.2);
+        }
+        None
+    }
+
+    /// "removing has a higher priority than ignoring or allowing"
+    pub fn element_removed(&self, name: &str) -> bool {
+        self.remove_elements.is_some_and(|l| l.contains(&name)) || (self.rrf && name == spec::REPLY)
+    }
+
+    /// element (by its final name) may appear in the output
+    pub fn element_ok(&self, name: &str) -> bool {
+        if self.element_removed(name) {
+            return false;
+        }
+        if self.ignore_elements.is_some_and(|l| l.contains(&name)) {
+            return false;
+        }
+        if self.allow_elements.is_some() || self.strict() {
+            let list = self.allow_elements.is_some_and(|(l, _)| l.contains(&name));
+            let overridden = matches!(self.allow_elements, Some((_, Beh::Override)));
+            let mode = self.strict() && !overridden && (spec::ELEMENTS.contains(&name) || name == spec::REPLY);
+            return list || mode;
+        }
+        true
+    }
+
+    pub fn attr_ok(&self, el: &str, attr: &str) -> bool {
+        if self.remove_attrs.and_then(|l| per_el(l, el)).is_some_and(|s| s.contains(&attr)) {
+            return false;
+        }
+        if self.allow_attrs.is_some() || self.strict() {
+            let list = self.allow_attrs.and_then(|(l, _)| per_el(l, el)).is_some_and(|s| s.contains(&attr));
+            let overridden = matches!(self.allow_attrs, Some((_, Beh::Override)));
+            let mode = self.strict() && !overridden && spec::attrs(el).contains(&attr);
+            return list || mode;
+        }
+        true
+    }
+
+    /// `None` = schemes of this (element, attribute) are not restricted by an allow-list
+    pub fn allowed_schemes(&self, el: &str, attr: &str) -> Option<Vec<&'static str>> {
+        if self.allow_schemes.is_none() && !self.strict() {
+            return None;
+        }
+        let list = self
+            .allow_schemes
+            .and_then(|(l, _)| l.iter().rev().find(|(e, _)| *e == el))
+            .and_then(|(_, a)| per_el(a, attr));
+        let overridden = matches!(self.allow_schemes, Some((_, Beh::Override)));
+        let strict = (self.strict() && !overridden).then(|| spec::schemes(el, attr)).flatten();
+        let compat = (self.compat() && !overridden).then(|| spec::compat_schemes(el, attr)).flatten();
+        if list.is_none() && strict.is_none() && compat.is_none() {
+            return None;
+        }
+        let mut v = vec![];
+        for l in [list, strict, compat].into_iter().flatten() {
+            v.extend_from_slice(l);
+        }
+        Some(v)
+    }
+
+    pub fn denied_schemes(&self, el: &str, attr: &str) -> Names {
+        self.deny_schemes
+            .and_then(|l| l.iter().rev().find(|(e, _)| *e == el))
+            .and_then(|(_, a)| per_el(a, attr))
+            .unwrap_or(&[])
+    }
+
+    pub fn class_ok(&self, el: &str, class: &str) -> bool {
+        if self.remove_classes.and_then(|l| per_el(l, el)).is_some_and(|ps| ps.iter().any(|p| glob_star(p, class))) {
+            return false;
+        }
+        if self.allow_classes.is_some() || self.strict() {
+            let list = self
+                .allow_classes
+                .and_then(|(l, _)| per_el(l, el))
+                .is_some_and(|ps| ps.iter().any(|p| glob_star(p, class)));
+            let overridden = matches!(self.allow_classes, Some((_, Beh::Override)));
+            let mode = self.strict() && !overridden && spec::classes(el).iter().any(|p| glob_star(p, class));
+            return list || mode;
+        }
+        true
+    }
+
+    /// Is the URI value acceptable for (el, attr) in the *output*?  Err(label) names the scheme.
+    pub fn uri_ok(&self, el: &str, attr: &str, value: &str) -> Result<(), String> {
+        let sch = ref_scheme(value);
+        if let Some(s) = &sch {
+            if self.denied_schemes(el, attr).contains(&s.as_str()) {
+                return Err(format!("denied-{s}"));
+            }
+        }
+        if let Some(allowed) = self.allowed_schemes(el, attr) {
+            match &sch {
+                Some(s) if allowed.contains(&s.as_str()) => {}
+                Some(s) => return Err(s.clone()),
+                None => return Err("none".into()),
+            }
+        }
+        Ok(())
+    }
+
+    /// Documented element decision from its URI attributes: a denied or not-allowed scheme makes
+    /// the element ignored (children kept). `attrs` are (final name, value) pairs.
+    pub fn scheme_decision(&self, el: &str, attrs: &[(String, String)]) -> Decision {
+        let mut d = Decision::Keep;
+        for (a, v) in attrs {
+            let sch = ref_scheme(v);
+            let denied = self.denied_schemes(el, a);
+            if !denied.is_empty() {
+                let literal = denied.iter().any(|s| v.starts_with(&format!("{s}:")));
+                let by_ref = sch.as_deref().is_some_and(|s| denied.contains(&s));
+                if literal && by_ref {
+                    return Decision::Ignore;
+                }
+                if literal != by_ref {
+                    d = Decision::Unspecified;
+                }
+            }
+            if let Some(allowed) = self.allowed_schemes(el, a) {
+                let literal = allowed.iter().any(|s| v.starts_with(&format!("{s}:")));
+                let by_ref = sch.as_deref().is_some_and(|s| allowed.contains(&s));
+                if !literal && !by_ref {
+                    return Decision::Ignore;
+                }
+                if literal != by_ref {
+                    d = Decision::Unspecified;
+                }
+            }
+        }
+        d
+    }
+}
+
+// ----- the configurations explored -----
+
+pub fn main_cfgs() -> Vec<Cfg> {
+    vec![
+        Cfg { name: "strict", main: true, mode: Some(Mode::Strict), ..Default::default() },
+        Cfg { name: "strict-rrf", main: true, mode: Some(Mode::Strict), rrf: true, ..Default::default() },
+        Cfg { name: "compat", main: true, mode: Some(Mode::Compat), ..Default::default() },
+        Cfg { name: "compat-rrf", main: true, mode: Some(Mode::Compat), rrf: true, ..Default::default() },
+    ]
+}
+
+pub fn to_ruma_mode(m: Mode) -> HtmlSanitizerMode {
+    match m {
+        Mode::Strict => HtmlSanitizerMode::Strict,
+        Mode::Compat => HtmlSanitizerMode::Compat,
+    }
+}
+
+/// Builder configurations: each list in `Override` and `Add` behaviour, with and without a
+/// mode, removals, `max_depth`, `deny_schemes`.
+pub fn builder_cfgs() -> Vec<Cfg> {
+    let s = Some(Mode::Strict);
+    let c = Some(Mode::Compat);
+    let d = Cfg::default;
+    vec![
+        Cfg { name: "new", ..d() },
+        Cfg { name: "new-rrf", rrf: true, ..d() },
+        Cfg { name: "el-add", mode: s, allow_elements: Some((&["svg", "center", "font"], Beh::Add)), ..d() },
+        Cfg { name: "el-override", mode: s, allow_elements: Some((&["b", "a", "p", "span", "img"], Beh::Override)), ..d() },
+        Cfg { name: "el-nomode", allow_elements: Some((&["b", "a", "table", "tbody", "tr", "td", "code"], Beh::Add)), ..d() },
+        Cfg { name: "el-ignore", mode: s, ignore_elements: Some(&["b", "td", "div"]), ..d() },
+        Cfg { name: "el-remove", mode: s, remove_elements: Some(&["b", "script", "svg", "ol"]), ..d() },
+        Cfg { name: "el-remove-compat", mode: c, rrf: true, remove_elements: Some(&["a"]), ..d() },
+        Cfg { name: "repl-el-add", mode: s, replace_elements: Some((&[("b", "strong"), ("script", "code")], Beh::Add)), ..d() },
+        Cfg { name: "repl-el-override", mode: s, replace_elements: Some((&[("b", "strong")], Beh::Override)), ..d() },
+        Cfg {
+            name: "attr-add",
+            mode: s,
+            allow_attrs: Some((&[("a", &["style", "class"]), ("p", &["data-mx-color"]), ("b", &["data-mx-color"])], Beh::Add)),
+            ..d()
+        },
+        Cfg { name: "attr-override", mode: s, allow_attrs: Some((&[("a", &["href"]), ("img", &["src"])], Beh::Override)), ..d() },
+        Cfg { name: "attr-nomode", allow_attrs: Some((&[("a", &["href"]), ("code", &["class"])], Beh::Override)), ..d() },
+        Cfg { name: "attr-remove", mode: s, remove_attrs: Some(&[("a", &["target", "href"]), ("span", &["data-mx-color"])]), ..d() },
+        Cfg {
+            name: "repl-attr-add",
+            mode: s,
+            replace_attrs: Some((
+                &[("span", &[("style", "data-mx-bg-color")]), ("font", &[("style", "data-mx-bg-color")])],
+                Beh::Add,
+            )),
+            ..d()
+        },
+        Cfg { name: "repl-attr-override", mode: s, replace_attrs: Some((&[("font", &[("style", "data-mx-bg-color")])], Beh::Override)), ..d() },
+        Cfg {
+            name: "scheme-add",
+            mode: s,
+            allow_schemes: Some((&[("img", &[("src", &["https"])]), ("a", &[("href", &["matrix"])])], Beh::Add)),
+            ..d()
+        },
+        Cfg { name: "scheme-override", mode: s, allow_schemes: Some((&[("a", &[("href", &["https"])])], Beh::Override)), ..d() },
+        Cfg { name: "scheme-nomode", allow_schemes: Some((&[("a", &[("href", &["https"])])], Beh::Add)), ..d() },
+        Cfg {
+            name: "scheme-deny",
+            mode: s,
+            deny_schemes: Some(&[("a", &[("href", &["https", "matrix"])]), ("img", &[("src", &["mxc"])])]),
+            ..d()
+        },
+        Cfg { name: "scheme-deny-compat", mode: c, deny_schemes: Some(&[("a", &[("href", &["matrix"])])]), ..d() },
+        Cfg { name: "scheme-deny-nomode", deny_schemes: Some(&[("a", &[("href", &["javascript"])])]), ..d() },
+        Cfg {
+            name: "scheme-deny-override",
+            mode: s,
+            allow_schemes: Some((&[("img", &[("src", &["mxc"])])], Beh::Override)),
+            deny_schemes: Some(&[("a", &[("href", &["javascript", "data"])])]),
+            ..d()
+        },
+        Cfg { name: "class-add", mode: s, allow_classes: Some((&[("code", &["ev*"])], Beh::Add)), ..d() },
+        Cfg { name: "class-override", mode: s, allow_classes: Some((&[("code", &["evil"])], Beh::Override)), ..d() },
+        Cfg { name: "class-remove", mode: s, remove_classes: Some(&[("code", &["language-*"])]), ..d() },
+        Cfg {
+            name: "class-nomode",
+            allow_classes: Some((&[("a", &["language-*"]), ("code", &["*"])], Beh::Add)),
+            remove_classes: Some(&[("code", &["ev*"])]),
+            ..d()
+        },
+        Cfg { name: "depth-2", mode: s, max_depth: Some(2), ..d() },
+        Cfg { name: "depth-3-nomode", max_depth: Some(3), ..d() },
+        Cfg { name: "depth-0", mode: c, max_depth: Some(0), ..d() },
+    ]
+}
+
+pub fn all_cfgs() -> Vec<Cfg> {
+    let mut v = main_cfgs();
+    v.extend(builder_cfgs());
+    v
+}
+
+pub fn cfg_by_name(name: &str) -> Option<Cfg> {
+    all_cfgs().into_iter().find(|c| c.name == name)
+}
+
+// ---------------------------------------------------------------------------------------
+// tree walking through ruma-html's public API
+
+/// qualified attribute name as an HTML serializer writes it
+pub fn attr_qname(a: &ruma_html::Attribute) -> String {
+    match &a.name.prefix {
+        Some(p) => format!("{}:{}", &**p, &*a.name.local),
+        None => {
+            if a.name.ns.is_empty() {
+                a.name.local.to_string()
+            } else {
+                // adjusted foreign attribute without a prefix (e.g. `xmlns`)
+                format!("{{{}}}{}", &*a.name.ns, &*a.name.local)
+            }
+        }
+    }
+}
+
+const OPEN: char = '\u{1}';
+const OPEN_END: char = '\u{2}';
+const CLOSE: char = '\u{3}';
+
+/// Flatten a tree to `\1name\2 … \3` with text verbatim (adjacent text nodes merge).
+pub fn flat(html: &Html) -> String {
+    fn rec(n: &NodeRef, out: &mut String) {
+        match n.data() {
+            NodeData::Text(t) => out.push_str(&t.borrow()),
+            NodeData::Element(e) => {
+                out.push(OPEN);
+                out.push_str(&e.name.local);
+                out.push(OPEN_END);
+                for c in n.children() {
+                    rec(&c, out);
+                }
+                out.push(CLOSE);
+            }
+            _ => out.push_str("\u{4}other\u{4}"),
+        }
+    }
+    let mut out = String::new();
+    for c in html.children() {
+        rec(&c, &mut out);
+    }
+    out
+}
+
+pub fn pretty_flat(s: &str) -> String {
+    s.replace(OPEN, "<").replace(OPEN_END, ">").replace(CLOSE, "</>")
+}
+
+pub struct Model {
+    pub flat: String,
+    /// the reference does not define the structure of the output for this input
+    pub unspecified: bool,
+    /// text found below an `mx-reply` element of the input
+    pub reply_text: String,
+}
+
+/// Reference sanitizer (structure only): which elements and text of the pristine tree must be
+/// in the output, in order. Follows the documented semantics: replacement, then removal
+/// (list, reply fallback, depth), then ignore / allow, then URI schemes.
+pub fn model(cfg: &Cfg, html: &Html) -> Model {
+    fn rec(cfg: &Cfg, n: &NodeRef, in_depth: u32, out_depth: u32, in_reply: bool, m: &mut Model) {
+        match n.data() {
+            NodeData::Text(t) => {
+                if in_reply {
+                    m.reply_text.push_str(&t.borrow());
+                    m.reply_text.push('\u{4}');
+                }
+                m.flat.push_str(&t.borrow());
+            }
+            NodeData::Element(e) => {
+                let name0: &str = &e.name.local;
+                let name = cfg.elem_replacement(name0).unwrap_or(name0);
+                let mut attrs: Vec<(String, String)> = vec![];
+                for a in e.attrs.borrow().iter() {
+                    let local: &str = &a.name.local;
+                    if !a.name.ns.is_empty() {
+                        // foreign-namespace attribute (xlink:href …): whether its local name makes
+                        // it a URI attribute of the element is not defined by the spec
+                        if cfg.allowed_schemes(name, local).is_some() || !cfg.denied_schemes(name, local).is_empty() {
+                            m.unspecified = true;
+                        }
+                        continue;
+                    }
+                    let nm = cfg.attr_replacement(name0, local).unwrap_or(local);
+                    attrs.push((nm.to_owned(), a.value.to_string()));
+                }
+                let in_reply = in_reply || name0 == spec::REPLY;
+                if cfg.element_removed(name) {
+                    collect_reply(n, in_reply, m);
+                    return;
+                }
+                if let Some(max) = cfg.max_depth_value() {
+                    if in_depth >= max {
+                        if out_depth < max {
+                            // "deeper than the maximum depth": depth in the input or in the output?
+                            m.unspecified = true;
+                        }
+                        collect_reply(n, in_reply, m);
+                        return;
+                    }
+                }
+                let keep = if cfg.element_ok(name) {
+                    match cfg.scheme_decision(name, &attrs) {
+                        Decision::Keep => true,
+                        Decision::Ignore => false,
+                        Decision::Unspecified => {
+                            m.unspecified = true;
+                            true
+                        }
+                    }
+                } else {
+                    false
+                };
+                if keep {
+                    m.flat.push(OPEN);
+                    m.flat.push_str(name);
+                    m.flat.push(OPEN_END);
+                }
+                for c in n.children() {
+                    rec(cfg, &c, in_depth + 1, out_depth + keep as u32, in_reply, m);
+                }
+                if keep {
+                    m.flat.push(CLOSE);
+                }
+            }
+            _ => {}
+        }
+    }
+    /// text of a removed subtree still counts as reply text (for the "nothing remains" check)
+    fn collect_reply(n: &NodeRef, in_reply: bool, m: &mut Model) {
+        if !in_reply {
+            return;
+        }
+        for c in n.children() {
+            match c.data() {
+                NodeData::Text(t) => {
+                    m.reply_text.push_str(&t.borrow());
+                    m.reply_text.push('\u{4}');
+                }
+                NodeData::Element(_) => collect_reply(&c, true, m),
+                _ => {}
+            }
+        }
+    }
+    let mut m = Model { flat: String::new(), unspecified: false, reply_text: String::new() };
+    for c in html.children() {
+        rec(cfg, &c, 0, 0, false, &mut m);
+    }
+    m
+}
+
+/// `@<digits>@` markers inside a text
+pub fn markers(text: &str) -> Vec<&str> {
+    let b = text.as_bytes();
+    let mut out = vec![];
+    let mut i = 0;
+    while i < b.len() {
+        if b[i] == b'@' {
+            let mut j = i + 1;
+            while j < b.len() && b[j].is_ascii_digit() {
+                j += 1;
+            }
+            if j > i + 1 && j < b.len() && b[j] == b'@' {
+                out.push(&text[i..=j]);
+                i = j + 1;
+                continue;
+            }
+        }
+        i += 1;
+    }
+    out
+}
+
+/// Containment oracle: every node of `html` (the re-parsed sanitizer output) against the
+/// allow-lists of `cfg`. Pushes (signature class, detail).
+pub fn containment(cfg: &Cfg, html: &Html, v: &mut Vec<(String, String)>) {
+    fn rec(cfg: &Cfg, n: &NodeRef, depth: u32, v: &mut Vec<(String, String)>, depth_reported: &mut bool) {
+        match n.data() {
+            NodeData::Text(_) => {}
+            NodeData::Element(e) => {
+                let name: &str = &e.name.local;
+                if !cfg.element_ok(name) {
+                    v.push((format!("element/{name}"), format!("element <{name}> in the output")));
+                }
+                if let Some(max) = cfg.max_depth_value() {
+                    if depth >= max && !*depth_reported {
+                        *depth_reported = true;
+                        v.push((
+                            format!("depth/{}", if depth == max { "max+1".to_owned() } else { "deeper".to_owned() }),
+                            format!("element <{name}> nested at level {} (> {max})", depth + 1),
+                        ));
+                    }
+                }
+                for a in e.attrs.borrow().iter() {
+                    let an = attr_qname(a);
+                    if !cfg.attr_ok(name, &an) {
+                        v.push((format!("attr/{name}/{an}"), format!("attribute {an}=\"{}\" on <{name}>", &*a.value)));
+                        continue;
+                    }
+                    if let Err(s) = cfg.uri_ok(name, &an, &a.value) {
+                        v.push((
+                            format!("scheme/{name}/{an}/{s}"),
+                            format!("<{name} {an}=\"{}\"> has scheme {s}", &*a.value),
+                        ));
+                    }
+                    if an == "class" {
+                        for tok in a.value.split_whitespace() {
+                            if !cfg.class_ok(name, tok) {
+                                v.push((format!("class/{name}/{tok}"), format!("class {tok} on <{name}>")));
+                            }
+                        }
+                    }
+                }
+                for c in n.children() {
+                    rec(cfg, &c, depth + 1, v, depth_reported);
+                }
+            }
+            _ => v.push(("node-kind/other".into(), "a node that is neither element nor text".into())),
+        }
+    }
+    let mut reported = false;
+    for c in html.children() {
+        rec(cfg, &c, 0, v, &mut reported);
+    }
+}
+
+/// number of nodes that are neither text nor element
+pub fn other_nodes(html: &Html) -> usize {
+    fn rec(n: &NodeRef) -> usize {
+        match n.data() {
+            NodeData::Text(_) => 0,
+            NodeData::Element(_) => n.children().map(|c| rec(&c)).sum(),
+            _ => 1,
+        }
+    }
+    html.children().map(|c| rec(&c)).sum()
+}
+
+// ----- snapshots and diff classes (slow path, only for reporting) -----
+
+#[derive(Clone, Debug, PartialEq, Eq)]
+pub enum SNode {
+    Text(String),
+    Elem { name: String, attrs: Vec<(String, String)>, children: Vec<SNode> },
+    Other,
+}
+
+pub fn snapshot(html: &Html) -> Vec<SNode> {
+    fn rec(n: &NodeRef) -> SNode {
+        match n.data() {
+            NodeData::Text(t) => SNode::Text(t.borrow().to_string()),
+            NodeData::Element(e) => SNode::Elem {
+                name: e.name.local.to_string(),
+                attrs: e.attrs.borrow().iter().map(|a| (attr_qname(a), a.value.to_string())).collect(),
+                children: n.children().map(|c| rec(&c)).collect(),
+            },
+            _ => SNode::Other,
+        }
+    }
+    html.children().map(|c| rec(&c)).collect()
+}
+
+/// A short class describing the first difference between two serialized documents
+/// (`expected` vs `got`), e.g. `attr/ol/start-lost`, `element/span-vs-font`, `text`.
+pub fn diff_class(expected: &str, got: &str) -> String {
+    fn rec(parent: &str, a: &[SNode], b: &[SNode]) -> Option<String> {
+        for (x, y) in a.iter().zip(b) {
+            match (x, y) {
+                (SNode::Text(s), SNode::Text(t)) => {
+                    if s != t {
+                        return Some(format!("text-in/{parent}"));
+                    }
+                }
+                (
+                    SNode::Elem { name: n1, attrs: a1, children: c1 },
+                    SNode::Elem { name: n2, attrs: a2, children: c2 },
+                ) => {
+                    if n1 != n2 {
+                        return Some(format!("element/{n1}-vs-{n2}"));
+                    }
+                    if a1 != a2 {
+                        for (k, v) in a1 {
+                            match a2.iter().find(|(k2, _)| k2 == k) {
+                                None => return Some(format!("attr/{n1}/{k}-lost")),
+                                Some((_, v2)) if v2 != v => return Some(format!("attr/{n1}/{k}-value")),
+                                _ => {}
+                            }
+                        }
+                        for (k, _) in a2 {
+                            if !a1.iter().any(|(k1, _)| k1 == k) {
+                                return Some(format!("attr/{n1}/{k}-extra"));
+                            }
+                        }
+                        return Some(format!("attr/{n1}/order"));
+                    }
+                    if let Some(d) = rec(n1, c1, c2) {
+                        return Some(d);
+                    }
+                }
+                (SNode::Elem { name, .. }, SNode::Text(_)) => return Some(format!("element/{name}-lost")),
+                (SNode::Text(_), SNode::Elem { name, .. }) => return Some(format!("element/{name}-extra")),
+                _ => return Some("node-kind".into()),
+            }
+        }
+        if a.len() > b.len() {
+            return Some(match &a[b.len()] {
+                SNode::Elem { name, .. } => format!("element/{name}-lost"),
+                _ => format!("text-lost-in/{parent}"),
+            });
+        }
+        if b.len() > a.len() {
+            return Some(match &b[a.len()] {
+                SNode::Elem { name, .. } => format!("element/{name}-extra"),
+                _ => format!("text-extra-in/{parent}"),
+            });
+        }
+        None
+    }
+    let a = snapshot(&Html::parse(expected));
+    let b = snapshot(&Html::parse(got));
+    rec("root", &a, &b).unwrap_or_else(|| "serialization-only".into())
+}
+
+/// class of the first difference of two flattened structures
+pub fn flat_diff_class(expected: &str, got: &str) -> String {
+    // names of the elements in order
+    fn names(s: &str) -> Vec<&str> {
+        s.split(OPEN).skip(1).filter_map(|p| p.split(OPEN_END).next()).collect()
+    }
+    fn text(s: &str) -> String {
+        let mut out = String::new();
+        let mut in_name = false;
+        for c in s.chars() {
+            match c {
+                OPEN => in_name = true,
+                OPEN_END => in_name = false,
+                CLOSE => {}
+                c if !in_name => out.push(c),
+                _ => {}
+            }
+        }
+        out
+    }
+    let (ne, ng) = (names(expected), names(got));
+    if ne != ng {
+        for (i, n) in ne.iter().enumerate() {
+            if ng.get(i) != Some(n) {
+                return if ng.len() > ne.len() {
+                    format!("element-extra/{}", ng[i])
+                } else if ng.len() < ne.len() {
+                    format!("element-lost/{n}")
+                } else {
+                    format!("element-differs/{n}-vs-{}", ng[i])
+                };
+            }
+        }
+        return format!("element-extra/{}", ng[ne.len()]);
+    }
+    if text(expected) != text(got) {
+        return "text".into();
+    }
+    "nesting".into()
+}
+
+// ---------------------------------------------------------------------------------------
+// input generators
+
+/// Attribute menu of family (i). Order matters only through duplicates (the parser keeps the
+/// first attribute of a name); the sanitizer then sees them in name order.
+pub const ATTR_MENU: [&str; 14] = [
+    "href=\"https://e.x/p\"",
+    "href=\"javascript:alert(1)\"",
+    "href=\"JAVASCRIPT:alert(1)\"",
+    "href=\"matrix:u/a:e.x\"",
+    "src=\"mxc://e.x/abc\"",
+    "src=\"https://e.x/i.png\"",
+    "class=\"language-x evil\"",
+    "onclick=\"alert(1)\"",
+    "data-mx-color=\"#ff0000\"",
+    "target=\"_blank\"",
+    "xlink:href=\"https://e.x/x\"",
+    "style=\"color:red\"",
+    "xlink:href=\"javascript:alert(2)\"",
+    "color=\"#00ff00\"",
+];
+
+/// (label, text before the attributes, text after them)
+pub const ATTR_ELEMENTS: [(&str, &str, &str); 16] = [
+    ("a", "<a", ">@0@</a>"),
+    ("img", "<img", ">@0@"),
+    ("span", "<span", ">@0@</span>"),
+    ("div", "<div", ">@0@</div>"),
+    ("code", "<code", ">@0@</code>"),
+    ("ol", "<ol", "><li>@0@</li></ol>"),
+    ("font", "<font", ">@0@</font>"),
+    ("p", "<p", ">@0@</p>"),
+    ("b", "<b", ">@0@</b>"),
+    ("table", "<table", "><tbody><tr><td>@0@</td></tr></tbody></table>"),
+    ("td", "<table><tbody><tr><td", ">@0@</td></tr></tbody></table>"),
+    ("mx-reply", "<mx-reply", ">@0@</mx-reply>@1@"),
+    ("script", "<script", ">@0@</script>@1@"),
+    ("iframe", "<iframe", ">@0@</iframe>@1@"),
+    ("svg-a", "<svg><a", ">@0@</a></svg>"),
+    ("math-a", "<math><a", ">@0@</a></math>"),
+];
+
+/// every ordered subset (no repetition) of `0..n` with at most `max_k` members whose first
+/// member is `first` (`None` = the empty subset only)
+pub fn ordered_subsets(n: usize, max_k: usize, first: Option<usize>, f: &mut dyn FnMut(&[usize])) {
+    fn rec(n: usize, max_k: usize, cur: &mut Vec<usize>, f: &mut dyn FnMut(&[usize])) {
+        f(cur);
+        if cur.len() == max_k {
+            return;
+        }
+        for i in 0..n {
+            if !cur.contains(&i) {
+                cur.push(i);
+                rec(n, max_k, cur, f);
+                cur.pop();
+            }
+        }
+    }
+    match first {
+        None => f(&[]),
+        Some(a) => {
+            if max_k >= 1 {
+                rec(n, max_k, &mut vec![a], f)
+            }
+        }
+    }
+}
+
+pub const TREE_TOKENS: [&str; 14] = [
+    "<b>",
+    "</b>",
+    "<a href=\"javascript:alert(1)\">",
+    "</a>",
+    "<p>",
+    "<table>",
+    "<td>",
+    "<script>",
+    "</script>",
+    "<svg>",
+    "<mx-reply>",
+    "</mx-reply>",
+    "<!--c-->",
+    "@<", // text; rendered as `@<position>@<`
+];
+pub const TOK_SCRIPT_OPEN: usize = 7;
+pub const TOK_SCRIPT_CLOSE: usize = 8;
+/// wall caps (seconds) of the two tiers: quick, thorough
+pub const WALL_CAPS: (f64, f64) = (55.0, 840.0);
+pub const TOK_TEXT: usize = 13;
+/// substitutions for `script` in family (ii)
+pub const RAW_SUBST: [&str; 6] = ["script", "title", "textarea", "noscript", "plaintext", "template"];
+
+pub fn render_tokens(seq: &[usize], subst: usize, out: &mut String) {
+    out.clear();
+    for (i, &t) in seq.iter().enumerate() {
+        match t {
+            TOK_TEXT => {
+                let _ = write!(out, "@{i}@<");
+            }
+            TOK_SCRIPT_OPEN => {
+                out.push('<');
+                out.push_str(RAW_SUBST[subst]);
+                out.push('>');
+            }
+            TOK_SCRIPT_CLOSE => {
+                out.push_str("</");
+                out.push_str(RAW_SUBST[subst]);
+                out.push('>');
+            }
+            t => out.push_str(TREE_TOKENS[t]),
+        }
+    }
+}
+
+/// all token sequences with the given prefix and total length `prefix.len()..=max_len`
+/// (or exactly the prefix if `exact`); sequences of at most `subst_len` tokens that contain the
+/// `<script>` token are also emitted with every raw-text substitution
+pub fn tree_docs(prefix: &[usize], max_len: usize, exact: bool, subst_len: usize, f: &mut dyn FnMut(&str, usize)) {
+    fn emit(seq: &[usize], subst_len: usize, buf: &mut String, f: &mut dyn FnMut(&str, usize)) {
+        render_tokens(seq, 0, buf);
+        f(buf, seq.len());
+        if seq.len() <= subst_len && seq.contains(&TOK_SCRIPT_OPEN) {
+            for s in 1..RAW_SUBST.len() {
+                render_tokens(seq, s, buf);
+                f(buf, seq.len());
+            }
+        }
+    }
+    fn rec(seq: &mut Vec<usize>, max_len: usize, subst_len: usize, buf: &mut String, f: &mut dyn FnMut(&str, usize)) {
+        emit(seq, subst_len, buf, f);
+        if seq.len() >= max_len {
+            return;
+        }
+        for t in 0..TREE_TOKENS.len() {
+            seq.push(t);
+            rec(seq, max_len, subst_len, buf, f);
+            seq.pop();
+        }
+    }
+    let mut buf = String::new();
+    let mut seq = prefix.to_vec();
+    if exact {
+        emit(&seq, subst_len, &mut buf, f);
+    } else if seq.len() <= max_len {
+        rec(&mut seq, max_len, subst_len, &mut buf, f);
+    }
+}
+
+/// family (iii): chains of nested elements with a text marker at every level
+pub fn ladder_docs() -> Vec<(String, String)> {
+    let kinds: [(&str, &[&str]); 8] = [
+        ("div", &["div"]),
+        ("b", &["b"]),
+        ("span", &["span"]),
+        ("font", &["font"]),
+        ("blockquote", &["blockquote"]),
+        ("div-span", &["div", "span"]),
+        ("b-i", &["b", "i"]),
+        ("ul-li", &["ul", "li"]),
+    ];
+    let depths = [98usize, 99, 100, 101, 102, 103, 200, 400];
+    let forbidden = ["section", "mark"];
+    let mut out = vec![];
+    for (label, els) in kinds {
+        for &n in &depths {
+            // variant 0: no forbidden element; variants: forbidden element at one of the last 3
+            // levels of the 100-level window and of the chain
+            let mut variants: Vec<Option<(usize, &str)>> = vec![None];
+            for fb in forbidden {
+                for back in 1..=3usize {
+                    variants.push(Some((n - back, fb)));
+                    if n > 100 {
+                        variants.push(Some((100 - back, fb)));
+                        variants.push(Some((100 + back - 1, fb)));
+                    }
+                }
+                variants.push(Some((0, fb)));
+            }
+            for var in variants {
+                let mut s = String::new();
+                let mut names = vec![];
+                for k in 0..n {
+                    let el = match var {
+                        Some((at, fb)) if at == k => fb,
+                        _ => els[k % els.len()],
+                    };
+                    names.push(el);
+                    let _ = write!(s, "<{el}>@{k}@");
+                }
+                for el in names.iter().rev() {
+                    let _ = write!(s, "</{el}>");
+                }
+                let _ = write!(s, "@{n}@");
+                let vl = match var {
+                    None => "plain".to_owned(),
+                    Some((at, fb)) => format!("{fb}@{at}"),
+                };
+                out.push((format!("ladder/{label}/{n}/{vl}"), s));
+            }
+        }
+    }
+    out
+}
+
+/// family (v): element x attribute matrix
+pub const MATRIX_ELEMENTS: [&str; 72] = [
+    "del", "h1", "h2", "h3", "h4", "h5", "h6", "blockquote", "p", "a", "ul", "ol", "sup", "sub", "li",
+    "b", "i", "u", "strong", "em", "s", "code", "hr", "br", "div", "table", "thead", "tbody", "tr",
+    "th", "td", "caption", "pre", "span", "img", "details", "summary", "mx-reply", "font", "strike",
+    "script", "style", "iframe", "object", "embed", "form", "input", "button", "select", "option",
+    "textarea", "title", "svg", "math", "center", "video", "audio", "source", "base", "link", "meta",
+    "body", "html", "head", "frameset", "marquee", "section", "mark", "template", "noscript", "xmp",
+    "area",
+];
+
+pub const MATRIX_ATTRS: [&str; 26] = [
+    "data-mx-bg-color=\"#00ff00\"",
+    "data-mx-color=\"#ff0000\"",
+    "data-mx-spoiler=\"r\"",
+    "data-mx-maths=\"x^2\"",
+    "target=\"_blank\"",
+    "href=\"https://e.x/p\"",
+    "width=\"10\"",
+    "height=\"20\"",
+    "alt=\"alt text\"",
+    "title=\"a title\"",
+    "src=\"mxc://e.x/abc\"",
+    "start=\"3\"",
+    "class=\"language-rust\"",
+    "onclick=\"alert(1)\"",
+    "onerror=\"alert(1)\"",
+    "style=\"color:red\"",
+    "id=\"i\"",
+    "name=\"n\"",
+    "rel=\"noopener\"",
+    "color=\"#0000ff\"",
+    "xlink:href=\"https://e.x/x\"",
+    "srcset=\"https://e.x/i.png 2x\"",
+    "background=\"https://e.x/i.png\"",
+    "action=\"https://e.x/\"",
+    "formaction=\"javascript:alert(1)\"",
+    "xml:lang=\"en\"",
+];
+
+/// wrap an element (with its attribute text) in the context the HTML parser needs to keep it
+pub fn wrap_element(el: &str, attrs: &str) -> String {
+    let open = if attrs.is_empty() { format!("<{el}>") } else { format!("<{el} {attrs}>") };
+    let void = matches!(el, "hr" | "br" | "img" | "input" | "embed" | "source" | "base" | "link" | "meta" | "area");
+    let inner = if void { format!("{open}@0@") } else { format!("{open}@0@</{el}>") };
+    match el {
+        "caption" | "thead" | "tbody" => format!("<table>{inner}</table>@1@"),
+        "tr" => format!("<table><tbody>{open}<td>@0@</td></tr></tbody></table>@1@"),
+        "td" | "th" => format!("<table><tbody><tr>{inner}</tr></tbody></table>@1@"),
+        "li" => format!("<ul>{inner}</ul>@1@"),
+        "summary" => format!("<details>{inner}</details>@1@"),
+        "option" => format!("<select>{inner}</select>@1@"),
+        _ => format!("{inner}@1@"),
+    }
+}
+
+pub fn matrix_docs(el: &str, f: &mut dyn FnMut(&str)) {
+    f(&wrap_element(el, ""));
+    for a in MATRIX_ATTRS {
+        f(&wrap_element(el, a));
+    }
+    for (i, a) in MATRIX_ATTRS.iter().enumerate() {
+        for (j, b) in MATRIX_ATTRS.iter().enumerate() {
+            if i != j {
+                f(&wrap_element(el, &format!("{a} {b}")));
+            }
+        }
+    }
+}
+
+/// family (vi): scheme spellings
+pub const URI_SPELLINGS: [&str; 30] = [
+    "https://e.x/",
+    "HTTPS://e.x/",
+    "Https://e.x/",
+    "http://e.x/",
+    "ftp://e.x/",
+    "mailto:a@e.x",
+    "magnet:?xt=urn:btih:0",
+    "matrix:u/a:e.x",
+    "MATRIX:u/a:e.x",
+    "mxc://e.x/abc",
+    "MXC://e.x/abc",
+    "javascript:alert(1)",
+    "JAVASCRIPT:alert(1)",
+    "JaVaScRiPt:alert(1)",
+    " javascript:alert(1)",
+    "&#9;javascript:alert(1)",
+    "java&#10;script:alert(1)",
+    "java&#9;script:alert(1)",
+    "javascript&colon;alert(1)",
+    "&#106;avascript:alert(1)",
+    "&#1;javascript:alert(1)",
+    "data:text/html,x",
+    "vbscript:x",
+    "//e.x/p",
+    "p/q",
+    "",
+    "https",
+    "httpsx://e.x/",
+    " https://e.x/",
+    "#frag:https:",
+];
+
+pub const URI_CARRIERS: [(&str, &str, &str); 7] = [
+    ("a-href", "<a {}>@0@</a>@1@", "href"),
+    ("img-src", "<img {}>@1@", "src"),
+    ("svg-a-href", "<svg><a {}>@0@</a></svg>@1@", "href"),
+    ("svg-a-xlink", "<svg><a {}>@0@</a></svg>@1@", "xlink:href"),
+    ("math-a-xlink", "<math><a {}>@0@</a></math>@1@", "xlink:href"),
+    ("font-href", "<font {}>@0@</font>@1@", "href"),
+    ("a-src", "<a {}>@0@</a>@1@", "src"),
+];
+
+pub const URI_SIBLINGS: [(&str, &str); 7] = [
+    ("", ""),
+    ("class=\"x\" ", ""),
+    ("", " target=\"_blank\""),
+    ("alt=\"a\" ", " title=\"t\""),
+    ("data-mx-color=\"#f00\" ", ""),
+    ("", " onclick=\"alert(1)\""),
+    ("height=\"1\" ", " width=\"2\""),
+];
+
+pub fn uri_docs(carrier: usize, f: &mut dyn FnMut(&str)) {
+    let (_, tpl, attr) = URI_CARRIERS[carrier];
+    for sp in URI_SPELLINGS {
+        for (before, after) in URI_SIBLINGS {
+            let attrs = format!("{before}{attr}=\"{sp}\"{after}");
+            f(&tpl.replace("{}", &attrs));
+        }
+    }
+}
+
+/// One unit of work of the shared input families.
+#[derive(Clone, Debug)]
+pub enum Shard {
+    /// family (i): element index, first attribute (None = no attribute), max subset size
+    Attr { el: usize, first: Option<usize>, max_k: usize },
+    /// family (ii): token prefix, max length, exact = only the prefix itself, maximal length of
+    /// the sequences that also get the raw-text substitutions
+    Tree { prefix: Vec<usize>, max_len: usize, exact: bool, subst_len: usize },
+    /// family (iii): index into `ladder_docs()`
+    Ladder { idx: usize },
+    /// family (v)
+    Matrix { el: usize },
+    /// family (vi)
+    Uri { carrier: usize },
+}
+
+impl Shard {
+    pub fn family(&self) -> &'static str {
+        match self {
+            Shard::Attr { .. } => "attr",
+            Shard::Tree { .. } => "tree",
+            Shard::Ladder { .. } => "ladder",
+            Shard::Matrix { .. } => "matrix",
+            Shard::Uri { .. } => "uri",
+        }
+    }
+}
+
+/// shards of the attribute, tree, matrix and uri families for the given bounds
+pub fn input_shards(attr_k: usize, tree_len: usize, subst_len: usize) -> Vec<Shard> {
+    let mut v = vec![];
+    // tree family first (largest shards first for load balance)
+    if tree_len >= 2 {
+        for a in 0..TREE_TOKENS.len() {
+            for b in 0..TREE_TOKENS.len() {
+                v.push(Shard::Tree { prefix: vec![a, b], max_len: tree_len, exact: false, subst_len });
+            }
+        }
+    }
+    v.push(Shard::Tree { prefix: vec![], max_len: 0, exact: true, subst_len });
+    if tree_len >= 1 {
+        for a in 0..TREE_TOKENS.len() {
+            v.push(Shard::Tree { prefix: vec![a], max_len: 1, exact: true, subst_len });
+        }
+    }
+    for el in 0..ATTR_ELEMENTS.len() {
+        v.push(Shard::Attr { el, first: None, max_k: attr_k });
+        for a in 0..ATTR_MENU.len() {
+            v.push(Shard::Attr { el, first: Some(a), max_k: attr_k });
+        }
+    }
+    for el in 0..MATRIX_ELEMENTS.len() {
+        v.push(Shard::Matrix { el });
+    }
+    for carrier in 0..URI_CARRIERS.len() {
+        v.push(Shard::Uri { carrier });
+    }
+    v
+}
+
+pub fn ladder_shards() -> Vec<Shard> {
+    (0..ladder_docs().len()).map(|idx| Shard::Ladder { idx }).collect()
+}
+
+/// enumerate the documents of a shard; the second argument of `f` is the size of the document
+/// in the family's own measure (tokens / attributes), 0 where there is none
+pub fn shard_docs(shard: &Shard, ladders: &[(String, String)], f: &mut dyn FnMut(&str, usize)) {
+    match shard {
+        Shard::Attr { el, first, max_k } => {
+            let (_, pre, post) = ATTR_ELEMENTS[*el];
+            let mut buf = String::new();
+            ordered_subsets(ATTR_MENU.len(), *max_k, *first, &mut |sub| {
+                buf.clear();
+                buf.push_str(pre);
+                for &i in sub {
+                    buf.push(' ');
+                    buf.push_str(ATTR_MENU[i]);
+                }
+                buf.push_str(post);
+                f(&buf, sub.len());
+            });
+        }
+        Shard::Tree { prefix, max_len, exact, subst_len } => tree_docs(prefix, *max_len, *exact, *subst_len, f),
+        Shard::Ladder { idx } => f(&ladders[*idx].1, 0),
+        Shard::Matrix { el } => matrix_docs(MATRIX_ELEMENTS[*el], &mut |d| f(d, 0)),
+        Shard::Uri { carrier } => uri_docs(*carrier, &mut |d| f(d, 0)),
+    }
+}
+
+// ---------------------------------------------------------------------------------------
+// C15: documents from the allow-list grammar itself (preservation) and deprecated rewrites
+
+/// allowed attribute values per element used by the preservation grammar
+pub fn clean_attr_values(el: &str, compat: bool) -> Vec<(&'static str, Vec<&'static str>)> {
+    match el {
+        "span" => vec![
+            ("data-mx-bg-color", vec!["#00ff00"]),
+            ("data-mx-color", vec!["#ff0000"]),
+            ("data-mx-spoiler", vec!["reason"]),
+            ("data-mx-maths", vec!["x^2"]),
+        ],
+        "a" => {
+            let mut href = vec!["https://e.x/p", "http://e.x/", "ftp://e.x/f", "mailto:a@e.x", "magnet:?xt=urn:btih:0"];
+            if compat {
+                href.push("matrix:u/a:e.x");
+            }
+            vec![("target", vec!["_blank"]), ("href", href)]
+        }
+        "img" => vec![
+            ("width", vec!["10"]),
+            ("height", vec!["20"]),
+            ("alt", vec!["alt text"]),
+            ("title", vec!["a title"]),
+            ("src", vec!["mxc://e.x/abc"]),
+        ],
+        "ol" => vec![("start", vec!["3"])],
+        "code" => vec![("class", vec!["language-rust", "language-a language-b"])],
+        "div" => vec![("data-mx-maths", vec!["x^2"])],
+        _ => vec![],
+    }
+}
+
+/// like `wrap_element` but with arbitrary inner content
+pub fn wrap_with(el: &str, attrs: &str, inner: &str) -> String {
+    let open = if attrs.is_empty() { format!("<{el}>") } else { format!("<{el} {attrs}>") };
+    let void = matches!(el, "hr" | "br" | "img");
+    let body = if void { format!("{open}{inner}") } else { format!("{open}{inner}</{el}>") };
+    match el {
+        "caption" | "thead" | "tbody" => format!("<table>{body}</table>@8@"),
+        "tr" => format!("<table><tbody>{open}<td>{inner}</td></tr></tbody></table>@8@"),
+        "td" | "th" => format!("<table><tbody><tr>{body}</tr></tbody></table>@8@"),
+        "li" => format!("<ul>{body}</ul>@8@"),
+        "summary" => format!("<details>{body}</details>@8@"),
+        _ => format!("{body}@8@"),
+    }
+}
+
+/// the allowed elements for a configuration of the preservation grammar
+pub fn clean_elements(rrf: bool) -> Vec<&'static str> {
+    let mut v = spec::ELEMENTS.to_vec();
+    if !rrf {
+        v.push(spec::REPLY);
+    }
+    v
+}
+
+/// (P1) one element with every subset of its allowed attributes, every allowed value, in
+/// menu order and reversed
+pub fn clean_single_docs(el: &str, compat: bool, f: &mut dyn FnMut(&str)) {
+    let menu = clean_attr_values(el, compat);
+    let n = menu.len();
+    for mask in 0u32..(1 << n) {
+        let chosen: Vec<usize> = (0..n).filter(|i| mask & (1 << i) != 0).collect();
+        // every combination of values
+        let radices: Vec<usize> = chosen.iter().map(|&i| menu[i].1.len()).collect();
+        engine::for_product(&radices, &mut |idx| {
+            let parts: Vec<String> =
+                chosen.iter().zip(idx).map(|(&i, &vi)| format!("{}=\"{}\"", menu[i].0, menu[i].1[vi])).collect();
+            f(&wrap_with(el, &parts.join(" "), "@0@"));
+            if parts.len() > 1 {
+                let rev: Vec<String> = parts.iter().rev().cloned().collect();
+                f(&wrap_with(el, &rev.join(" "), "@0@"));
+            }
+        });
+    }
+}
+
+/// (P2) every allowed element inside every allowed element
+pub fn clean_pair_docs(parent: &str, rrf: bool, f: &mut dyn FnMut(&str)) {
+    for child in clean_elements(rrf) {
+        let inner = format!("@0@{}@3@", wrap_with(child, "", "@1@").replace("@8@", "@2@"));
+        f(&wrap_with(parent, "", &inner));
+    }
+}
+
+/// labels of the forest grammar (P3): (open, close); empty close = leaf
+pub const FOREST_LABELS: [(&str, &str); 10] = [
+    ("@", ""), // text, rendered as @<node number>@
+    ("<b>", "</b>"),
+    ("<p>", "</p>"),
+    ("<a href=\"https://e.x/p\" target=\"_blank\">", "</a>"),
+    ("<span data-mx-color=\"#ff0000\">", "</span>"),
+    ("<code class=\"language-x\">", "</code>"),
+    ("<ul>", "</ul>"),
+    ("<li>", "</li>"),
+    ("<br>", ""),
+    ("<div data-mx-maths=\"m\">", "</div>"),
+];
+pub const FOREST_CLOSE: usize = FOREST_LABELS.len();
+
+/// (P3) every well-nested forest with at most `budget` nodes whose choice sequence starts with
+/// `prefix` (choices: label index = new node, FOREST_CLOSE = close the open element)
+pub fn forest_docs(prefix: &[usize], budget: usize, f: &mut dyn FnMut(&str)) {
+    struct St {
+        buf: String,
+        stack: Vec<usize>,
+        nodes: usize,
+        last_text: bool,
+    }
+    fn apply(st: &mut St, c: usize, budget: usize) -> Option<(usize, bool)> {
+        // returns (previous buf len, previous last_text) for undo
+        let undo = (st.buf.len(), st.last_text);
+        if c == FOREST_CLOSE {
+            let l = st.stack.pop()?;
+            st.buf.push_str(FOREST_LABELS[l].1);
+            st.last_text = false;
+        } else {
+            if st.nodes >= budget {
+                return None;
+            }
+            if c == 0 {
+                if st.last_text {
+                    return None;
+                }
+                let _ = write!(st.buf, "@{}@", st.nodes);
+                st.last_text = true;
+            } else {
+                st.buf.push_str(FOREST_LABELS[c].0);
+                st.last_text = false;
+                if !FOREST_LABELS[c].1.is_empty() {
+                    st.stack.push(c);
+                }
+            }
+            st.nodes += 1;
+        }
+        Some(undo)
+    }
+    fn rec(st: &mut St, budget: usize, f: &mut dyn FnMut(&str)) {
+        if st.stack.is_empty() {
+            f(&st.buf);
+        }
+        for c in 0..=FOREST_CLOSE {
+            let stack_before = st.stack.clone();
+            let nodes_before = st.nodes;
+            if let Some((len, lt)) = apply(st, c, budget) {
+                rec(st, budget, f);
+                st.buf.truncate(len);
+                st.last_text = lt;
+            }
+            st.stack = stack_before;
+            st.nodes = nodes_before;
+        }
+    }
+    let mut st = St { buf: String::new(), stack: vec![], nodes: 0, last_text: false };
+    for &c in prefix {
+        if apply(&mut st, c, budget).is_none() {
+            return;
+        }
+    }
+    rec(&mut st, budget, f);
+}
+
+/// (P4) chains of allowed elements up to exactly the depth limit
+pub fn clean_chain_docs() -> Vec<String> {
+    let kinds: [&[&str]; 7] =
+        [&["div"], &["span"], &["b"], &["blockquote"], &["div", "span"], &["ul", "li"], &["em", "code", "sup"]];
+    let mut out = vec![];
+    for els in kinds {
+        for n in [1usize, 2, 50, 98, 99, 100] {
+            let mut s = String::new();
+            for k in 0..n {
+                let _ = write!(s, "<{}>@{k}@", els[k % els.len()]);
+            }
+            for k in (0..n).rev() {
+                let _ = write!(s, "</{}>", els[k % els.len()]);
+            }
+            let _ = write!(s, "@{n}@");
+            out.push(s);
+        }
+    }
+    out
+}
+
+/// Deprecated rewrites: (input, the same document written with the replacements)
+pub fn rewrite_docs(f: &mut dyn FnMut(&str, &str, &str)) {
+    // (attribute text, replacement text or "" when it must be dropped)
+    let font_attrs: [(&str, &str); 6] = [
+        ("color=\"#ff0000\"", "data-mx-color=\"#ff0000\""),
+        ("data-mx-bg-color=\"#00ff00\"", "data-mx-bg-color=\"#00ff00\""),
+        ("data-mx-spoiler=\"r\"", "data-mx-spoiler=\"r\""),
+        ("data-mx-maths=\"m\"", "data-mx-maths=\"m\""),
+        ("face=\"serif\"", ""),
+        ("size=\"2\"", ""),
+    ];
+    let strike_attrs: [(&str, &str); 3] = [("class=\"x\"", ""), ("data-mx-color=\"#ff0000\"", ""), ("style=\"color:red\"", "")];
+    let children: [(&str, &str); 8] = [
+        ("", ""),
+        ("@1@", "@1@"),
+        ("<b>@1@</b>", "<b>@1@</b>"),
+        ("@1@<i>@2@</i>@3@", "@1@<i>@2@</i>@3@"),
+        ("<font color=\"#0000ff\">@1@</font>@2@", "<span data-mx-color=\"#0000ff\">@1@</span>@2@"),
+        ("@1@<strike>@2@</strike>", "@1@<s>@2@</s>"),
+        ("<a href=\"https://e.x/p\">@1@</a>", "<a href=\"https://e.x/p\">@1@</a>"),
+        ("<code class=\"language-x\">@1@</code><br>@2@", "<code class=\"language-x\">@1@</code><br>@2@"),
+    ];
+    let contexts: [(&str, &str); 3] = [("", "@9@"), ("<blockquote>", "</blockquote>@9@"), ("<ul><li>@7@", "</li></ul>@9@")];
+    for (el, new_el, menu) in [("font", "span", &font_attrs[..]), ("strike", "s", &strike_attrs[..])] {
+        let n = menu.len();
+        for first in std::iter::once(None).chain((0..n).map(Some)) {
+            ordered_subsets(n, n, first, &mut |sub| {
+                let mut a_in = String::new();
+                let mut a_out = String::new();
+                for &i in sub {
+                    a_in.push(' ');
+                    a_in.push_str(menu[i].0);
+                    if !menu[i].1.is_empty() {
+                        a_out.push(' ');
+                        a_out.push_str(menu[i].1);
+                    }
+                }
+                for (c_in, c_out) in children {
+                    for (pre, post) in contexts {
+                        let input = format!("{pre}<{el}{a_in}>{c_in}</{el}>{post}");
+                        let expected = format!("{pre}<{new_el}{a_out}>{c_out}</{new_el}>{post}");
+                        f(el, &input, &expected);
+                    }
+                }
+            });
+        }
+    }
+}
